@@ -12,7 +12,7 @@ PROPS = {
     "C08": {"level": "proof", "lemma_files": ENGINE + ["contracts/state_index.py", "contracts/codec_laws.py"], "conformance": []},
     "C09": {"level": "proof", "lemma_files": ["contracts/storage_laws.py"], "conformance": [],
             "bounded": ["contracts.bounded_storage.run"]},
-    "C10": {"level": "proof", "lemma_files": ENGINE, "conformance": []},
+    "C10": {"level": "proof", "lemma_files": ENGINE + ["contracts/state_index.py"], "conformance": []},
     "C11": {"level": "proof", "lemma_files": ENGINE + ["contracts/state_index.py", "contracts/codec_laws.py"], "conformance": []},
     "C12": {"level": "proof", "lemma_files": ENGINE + ["contracts/path_laws.py"], "conformance": ["str"]},
     "C13": {"level": "proof", "lemma_files": ["contracts/path_laws.py"], "conformance": ["str"]},
